@@ -224,15 +224,17 @@ def main(argv=None):
           f"solver={tot['solver_s']:.0f}s obligations={tot['obligations']} discharged={tot['discharged']} "
           f"sat={tot['sat']} reproduced={tot['sat_reproduced']} known_hits={tot['known_hits']} "
           f"witnesses={tot['witnesses_conform']}/{tot['witnesses']} wall={wall:.0f}s")
-    if model_errors:
-        for m in model_errors[:10]: print("MODEL-ERROR", m)
-        print(f"INCONCLUSIVE property={prop} reason=harness/model error ({len(model_errors)})")
-        return 3
     if vio_lines:
+        # a violation that reproduces on the real build is real whatever else went wrong
+        for m in model_errors[:5]: print("MODEL-ERROR", m)
         for path, hn, s, x in vio_lines:
             print(f"  violation in {hn}: {s}   choices={x['choices']}")
             print(f"VIOLATION property={prop} replay={path}")
         return 1
+    if model_errors:
+        for m in model_errors[:10]: print("MODEL-ERROR", m)
+        print(f"INCONCLUSIVE property={prop} reason=harness/model error ({len(model_errors)})")
+        return 3
     if inconclusive:
         for m in inconclusive[:10]: print("INCONCLUSIVE-DETAIL", m)
         print(f"INCONCLUSIVE property={prop} reason={inconclusive[0][:200]}")
